@@ -76,6 +76,34 @@ pub fn configs(tier: Tier) -> Vec<OutCfg> {
                 });
             }
         }
+        // v5 server: handler responses that have to be trimmed - the peer announced a Maximum Packet Size of 30 / 40 / 64
+        // bytes and the publish handler decorates its PUBACK with a reason string and a 40-byte user property, so the
+        // encoder drops what does not fit; the lengths it writes must describe what it wrote, or every later packet
+        // is swallowed into the short one (seeded change C08_r9: size pass and write pass of the optional properties
+        // disagreed). Two inbound publishes interleaved with the application's own sends.
+        if ver == Ver::V5 && role == Role::Server {
+            for max in [30u32, 40, 64] {
+                let mut ep = ep_for(EpCfg::new(ver, role), 8, false);
+                ep.handler_auto = true;
+                ep.ack_decor = true;
+                v.push(OutCfg {
+                    ep,
+                    cap: 8,
+                    senders: vec![SK::Q1, SK::Q0],
+                    cancels: 0,
+                    batch: false,
+                    bp: 0,
+                    peer: PeerMode::Correct,
+                    judge: J_WIRE,
+                    prologue: 0,
+                    peer_max_packet: max,
+                    inbound: 2,
+                    may_close: false,
+                    inbound_faults: false,
+                    cancel_inflight: false,
+                });
+            }
+        }
         // write back-pressure episodes: a 24-byte QoS 0 publish overflows the 16-byte write buffer while the peer does
         // not read, so a chunk of a streamed publish handed over then parks until the buffer drains; other sends
         // attempted meanwhile must still be refused (payload owed) - seeded change C08_r6 accounted the chunk
